@@ -219,6 +219,12 @@ def check_cases(chk, cases, replay=False):
         cases = [c for c in cases if c.get("kind") != "engine-time-mode"]
         if not cases:
             return
+    rmx = [c for c in cases if c.get("kind") == "relmix"]
+    if rmx:
+        relmix_check(chk, rmx)
+        cases = [c for c in cases if c.get("kind") != "relmix"]
+        if not cases:
+            return
     lines = []
     for c in cases:
         if "policy" in c:
@@ -283,8 +289,13 @@ def run(chk):
                 "lax/strict x operand placement (attribute reference / literal); time operators over in-grammar and "
                 "malformed ISO strings, epoch numbers incl. range edges and rounding ties; and/or/not over every "
                 "tuple of <=3 leaves incl. ill-typed ones + random trees; resolve paths; multi-key objects; rule-level "
-                "type-mismatch skipping under all algorithms. non-trivial = the model's answer is a boolean (not a "
-                "type mismatch); distinct = distinct (condition, context, mode)" % len(gen.VALUES))
+                "type-mismatch skipping under all algorithms; relmix: and/or/not trees (every shape with <=3 operands, one "
+                "level of nesting, + random deeper ones) whose operands are `rel` lookups answered true/false by a "
+                "configured checker (plain / async def) and comparisons that are true / false / ill-typed for the request, "
+                "in every order, through eval_condition, evaluate, Guard (single policy, policy set), judged on result, "
+                "reason and the ordered lookups. non-trivial = the model's answer is a boolean (not a "
+                "type mismatch) [relmix: a lookup is made, or the condition holds, or the reason is not a plain mismatch]; "
+                "distinct = distinct (condition, context, mode)" % len(gen.VALUES))
     chk.assumptions = [
         "ISO-8601 strings outside the modelled grammar YYYY-MM-DD[(T| )hh:mm[:ss[.f{1,6}]]][Z|+-hh:mm] are outside "
         "the model (counted as ood, skipped); Python 3.12 fromisoformat accepts more shapes",
@@ -293,6 +304,7 @@ def run(chk):
     ]
     cases = corpus_cases()
     cases += binop_cases(chk) + time_cases(chk) + logic_cases(chk) + resolve_cases(chk) + rule_cases(chk)
+    cases += relmix_cases(chk)
     check_cases(chk, cases)
     engine_time_mode(chk)
     chk.exhaustive = chk.tier == "thorough"
@@ -321,3 +333,404 @@ def engine_time_mode(chk, given=None):
                           "the rule not apply)" % (c["strict"], d if not isinstance(d, dict) else (d["effect"], d["reason"]),
                                                     m["effect"], m["reason"]),
                           {"kind": "engine-time-mode", **{k: c[k] for k in ("policy", "req", "strict")}}, impl=d, model=m)
+
+
+# =================================================================================================
+# relmix — and / or / not (nested) over `rel` operands MIXED with operands that are true / false / ill-typed for the
+# request, in every order; the relationship checker answers true or false per triple (plain and `async def`).
+# Evaluated (1) by policy.eval_condition directly, (2) by policy.evaluate on a policy wrapping the condition,
+# (3) by Guard on that single policy (the compiled path), (4) by Guard on a policy set holding it — each compared
+# with the model fed the same relationship table (runner `relcond`: value / decision AND the ordered lookups,
+# which c04_and_short_circuit / c04_or_short_circuit fix as part of the final state; runner `engine` for evaluate).
+# =================================================================================================
+RM_ABSENT = "<absent>"
+# (holder of the attribute, leaf over its path, values that make the leaf true / false / ill-typed)
+RM_LOCAL = [
+    ("subject", lambda p: {">=": [{"attr": p}, 3]}, {"T": [5, 3, 3.5], "F": [1, -2], "E": [RM_ABSENT, "5", True, None, [3]]}),
+    ("subject", lambda p: {"startsWith": [{"attr": p}, "sec-"]}, {"T": ["sec-ops"], "F": ["ops", ""], "E": [42, RM_ABSENT, ["sec-"]]}),
+    ("resource", lambda p: {"<": [{"attr": p}, 2]}, {"T": [1, 0.5], "F": [2, 7], "E": ["1", RM_ABSENT, False]}),
+    ("context", lambda p: {"before": [{"attr": p}, "2999-01-01T00:00:00Z"]},
+     {"T": ["2025-01-01T00:00:00Z", 1735689600], "F": ["3000-01-01T00:00:00Z"], "E": ["junk", RM_ABSENT, []]}),
+    ("subject", lambda p: {"hasAny": [{"attr": p}, ["p", "q"]]}, {"T": [["p"], ["z", "q"]], "F": [["z"], []], "E": ["p", RM_ABSENT, 5]}),
+    ("resource", lambda p: {"contains": [{"attr": p}, "x"]}, {"T": ["axb", ["x"]], "F": ["ab", []], "E": [5, RM_ABSENT, True]}),
+    ("context", lambda p: {"not": {"<": [{"attr": p}, 18]}}, {"T": [18, 40.5], "F": [17], "E": ["17", RM_ABSENT]}),
+]
+RM_SUBJECT, RM_RESOURCE, RM_PARENT = "alice", ("doc", "7"), "folder:f1"
+
+
+def rm_rel(i, salt):
+    """the rel operand of slot i and the canonical query it stands for"""
+    name = "r%d" % i
+    k = (i + salt) % 4
+    s, o = "user:" + RM_SUBJECT, "%s:%s" % RM_RESOURCE
+    if k == 0:
+        return {"rel": name}, [s, name, o, {}]
+    if k == 1:
+        return {"rel": {"relation": name, "resource": {"attr": "resource.attrs.parent"}}}, [s, name, RM_PARENT, {}]
+    if k == 2:
+        return {"rel": {"relation": name, "subject": "group:g1"}}, ["group:g1", name, o, {}]
+    return {"rel": {"relation": name, "ctx": {"ip": "10.0.0.1"}}}, [s, name, o, {"ip": "10.0.0.1"}]
+
+
+class _RmWorld:
+    """request attributes and relationship answers collected while the leaves of one condition are made"""
+
+    def __init__(self):
+        self.attrs = {"subject": {}, "resource": {"parent": RM_PARENT}, "context": {}}
+        self.answers = []
+        self.n = 0
+
+    def rel(self, salt, answer):
+        leaf, q = rm_rel(self.n, salt)
+        self.n += 1
+        self.answers.append(q + [bool(answer)])
+        return leaf
+
+    def local(self, salt, state):
+        i = self.n
+        self.n += 1
+        holder, mk, vals = RM_LOCAL[(i * 2 + salt) % len(RM_LOCAL)]
+        pool = vals[state]
+        v = pool[(salt // 3 + i) % len(pool)]
+        if not (isinstance(v, str) and v == RM_ABSENT):
+            self.attrs[holder]["a%d" % i] = gen.fresh(v)
+        return mk(("context.a%d" if holder == "context" else holder + ".attrs.a%d") % i)
+
+    def req(self):
+        return {"subject": {"id": RM_SUBJECT, "roles": [], "attrs": self.attrs["subject"]}, "action": "read",
+                "resource": {"type": RM_RESOURCE[0], "id": RM_RESOURCE[1], "attrs": self.attrs["resource"]},
+                "context": self.attrs["context"]}
+
+
+# how the condition is wrapped into a policy: (effect of the rule, algorithm, other rule or None, other rule first?)
+RM_WRAPS = [("permit", "deny-overrides", None, False), ("deny", "deny-overrides", "permit", False),
+            ("permit", "permit-overrides", "deny", True), ("permit", "first-applicable", "deny", False),
+            ("deny", "first-applicable", "permit", False), ("deny", "permit-overrides", None, False)]
+
+
+def rm_policy(cond, wrap):
+    eff, algo, other, first = RM_WRAPS[wrap]
+    rules = [{"id": "mix", "effect": eff, "actions": ["read"], "resource": {"type": "doc"}, "condition": cond}]
+    if other:
+        o = {"id": "other", "effect": other, "actions": ["read"], "resource": {"type": "doc"}}
+        rules = [o] + rules if first else rules + [o]
+    return {"id": "p", "algorithm": algo, "rules": rules}
+
+
+def rm_set(pol, how):
+    if how == "set":
+        return {"id": "s", "algorithm": "deny-overrides", "policies": [pol]}
+    return {"id": "t", "algorithm": "first-applicable", "policies": [
+        {"id": "s", "algorithm": "permit-overrides", "policies": [pol]},
+        {"id": "fallback", "algorithm": "permit-overrides", "rules": [
+            {"id": "fb", "effect": "deny", "actions": ["read"], "resource": {}}]}]}
+
+
+def rm_shapes():
+    s = ["slot"]
+    out = []
+    for op in ("and", "or"):
+        out += [[op, s, s], [op, s, s, s], ["not", [op, s, s]], [op, ["not", s], s], [op, s, ["not", s]]]
+        for op2 in ("and", "or"):
+            out += [[op, s, [op2, s, s]], [op, [op2, s, s], s]]
+    return out
+
+
+def rm_slots(t):
+    return 1 if t[0] == "slot" else sum(rm_slots(x) for x in t[1:])
+
+
+def rm_case(fam, cond, world, salt, strict, wraps, sets):
+    return {"kind": "relmix", "fam": fam, "cond": cond, "req": world.req(), "answers": world.answers,
+            "strict": bool(strict), "wraps": list(wraps), "sets": list(sets)}
+
+
+def relmix_cases(chk):
+    quick = chk.tier == "quick"
+    cases = []
+    salt = chk.seed * 7
+    for shape in rm_shapes():
+        n = rm_slots(shape)
+        for kinds in itertools.product("RL", repeat=n):
+            if "R" not in kinds:
+                continue
+            for outs in itertools.product(*[("t", "f") if k == "R" else ("T", "F", "E") for k in kinds]):
+                salt += 1
+                if quick and n == 3 and "E" not in outs and salt % 4 >= 2:
+                    continue                      # quick: half of the all-well-typed three-operand cells
+                w = _RmWorld()
+                it = iter(zip(kinds, outs))
+
+                def go(t):
+                    if t[0] == "slot":
+                        k, o = next(it)
+                        return w.rel(salt, o == "t") if k == "R" else w.local(salt, o)
+                    if t[0] == "not":
+                        return {"not": go(t[1])}
+                    return {t[0]: [go(x) for x in t[1:]]}
+                cond = go(shape)
+                # quick: one wrapping per cell (the bare permit rule, whose reason shows mismatch / type mismatch, every
+                # other time; one of the five others in turn); thorough: all six
+                wraps = [(0, 1 + (salt // 2) % 5)[salt % 2]] if quick else range(len(RM_WRAPS))
+                sets = ["set"] if quick else ["set", "nested"]
+                cases.append(rm_case("relmix", cond, w, salt, salt % 6 == 0, wraps, sets))
+    rng = chk.rng
+    for _ in range(200 if quick else 6000):
+        salt += 1
+        w = _RmWorld()
+        made = []
+
+        def leaf():
+            r = rng.random()
+            if made and r < 0.15:                 # the same operand again (same triple: the per-decision memo)
+                return gen.fresh(rng.choice(made))
+            if r < 0.25:
+                return gen.fresh(rng.choice([True, False, {"<": ["a", 1]}, {"==": [1, 1]}, {"rel": ""}]))
+            lf = w.rel(rng.randrange(99), rng.random() < 0.5) if rng.random() < 0.45 else w.local(rng.randrange(99), rng.choice("TFE"))
+            made.append(lf)
+            return lf
+
+        def build(d):
+            if d == 0 or rng.random() < 0.2:
+                return leaf()
+            op = rng.choice(["and", "or", "and", "or", "not"])
+            if op == "not":
+                return {"not": build(d - 1)}
+            return {op: [build(d - 1) for _ in range(rng.choice([1, 2, 2, 3, 3, 4]))]}
+        cond = build(rng.choice([2, 3, 3, 4]))
+        cases.append(rm_case("relmix-random", cond, w, salt, rng.random() < 0.2, [rng.randrange(len(RM_WRAPS))],
+                             [rng.choice(["set", "nested"])]))
+    return cases
+
+
+def rm_env(c):
+    env = gen.fresh(c["req"])
+    if c.get("strict"):
+        env["__strict_types__"] = True
+    return env
+
+
+def _rm_checkers(answers):
+    import asyncio
+    import copy
+
+    class Rel:
+        def __init__(self):
+            self.calls = []
+
+        def _answer(self, s, r, o, ctx):
+            self.calls.append([s, r, o, copy.deepcopy(ctx if ctx is not None else {})])     # at call time: the order asked
+            for row in answers:
+                if row[:3] == [s, r, o] and row[3] == (ctx or {}):
+                    return row[4]
+            return False
+
+        def check(self, subject, relation, resource, *, context=None):
+            return self._answer(subject, relation, resource, context)
+
+        def batch_check(self, triples, *, context=None):
+            return [self.check(*t, context=context) for t in triples]
+
+    class ARel(Rel):
+        async def check(self, subject, relation, resource, *, context=None):  # type: ignore[override]
+            a = self._answer(subject, relation, resource, context)
+            await asyncio.sleep(0)
+            return a
+
+        async def batch_check(self, triples, *, context=None):  # type: ignore[override]
+            return [await self.check(*t, context=context) for t in triples]
+
+    return {"sync": Rel, "async": ARel}
+
+
+def rm_paths(c):
+    """every (path, checker, wrap) evaluated for a case, in a fixed order"""
+    out = [("cond", "sync", None), ("cond", "async", None)]
+    for w in c["wraps"]:
+        out.append(("evaluate", "sync", w))
+        out.append(("guard", "sync", w))
+        out.append(("guard", "async", w))
+        for k, how in enumerate(c["sets"]):
+            out.append(("guard:" + how, ("async", "sync")[(w + k) % 2], w))
+    return out
+
+
+async def _rm_run_path(c, path, ck, wrap):
+    """one evaluation on the implementation: {"value" | "decision", "calls"}"""
+    import asyncio
+    import contextvars
+    import copy
+
+    from rbacx.core import policy as pol
+    from rbacx.core.relctx import EVAL_LOOP, REL_CHECKER, REL_LOCAL_CACHE
+
+    rec = _rm_checkers(c["answers"])[ck]()
+    if path in ("cond", "evaluate"):
+        env = rm_env(c)
+
+        def body(loop):
+            REL_CHECKER.set(rec)
+            REL_LOCAL_CACHE.set(None)
+            EVAL_LOOP.set(loop)
+            if path == "cond":
+                return impl_eval(copy.deepcopy(c["cond"]), env)
+            return impl_evaluate(rm_policy(copy.deepcopy(c["cond"]), wrap), env)
+        if ck == "async":       # an awaitable answer is resolved on the captured loop, from a worker thread
+            v = await asyncio.to_thread(body, asyncio.get_running_loop())
+        else:
+            v = contextvars.copy_context().run(body, None)
+        return {"value": v, "calls": rec.calls}
+    from rbacx.core.engine import Guard
+    from rbacx.core.model import Action, Context, Resource, Subject
+
+    p = rm_policy(copy.deepcopy(c["cond"]), wrap)
+    if path != "guard":
+        p = rm_set(p, path.split(":")[1])
+    req = gen.fresh(c["req"])
+    g = Guard(p, relationship_checker=rec, **({"strict_types": True} if c.get("strict") else {}))
+    try:
+        d = await g.evaluate_async(Subject(id=req["subject"]["id"], roles=list(req["subject"]["roles"]), attrs=req["subject"]["attrs"]),
+                                   Action(req["action"]),
+                                   Resource(type=req["resource"]["type"], id=req["resource"]["id"], attrs=req["resource"]["attrs"]),
+                                   Context(attrs=req["context"]))
+        v = {"allowed": d.allowed, "effect": d.effect, "obligations": d.obligations, "challenge": d.challenge,
+             "rule_id": d.rule_id, "policy_id": d.policy_id, "reason": d.reason}
+    except Exception as e:  # noqa: BLE001
+        v = ["Raise", type(e).__name__]
+    return {"value": v, "calls": rec.calls}
+
+
+def _rm_shard(cases):
+    import asyncio
+
+    async def go():
+        return [[await _rm_run_path(c, *p) for p in rm_paths(c)] for c in cases]
+    return asyncio.run(go())
+
+
+def rm_run_impl(cases):
+    import multiprocessing as mp
+
+    n = min(12, max(1, len(cases) // 60))
+    if n <= 1:
+        return _rm_shard(cases)
+    shards = [cases[i::n] for i in range(n)]
+    with mp.get_context("fork").Pool(n) as pool:
+        parts = pool.map(_rm_shard, shards)
+    out = [None] * len(cases)
+    for i, part in enumerate(parts):
+        out[i::n] = part
+    return out
+
+
+def rm_run_model(cases):
+    """per case, per path of rm_paths: {"value", "log"} (log None where the model entry does not give it)"""
+    lines = {"engine": {}, "relcond": {}}          # runner -> line -> position (the two checkers share their lines)
+    where = []
+    for ci, c in enumerate(cases):
+        rows = [r[:4] + [["ret", r[4]]] for r in c["answers"]]
+        for pi, (path, _ck, wrap) in enumerate(rm_paths(c)):
+            if path == "cond":
+                tag, ln = "relcond", lib.model_call("relcond.cond", c["cond"], rm_env(c), rows, None, False)
+            elif path == "evaluate":
+                tag, ln = "engine", lib.model_call("policy.evaluate", None, rm_policy(c["cond"], wrap), rm_env(c), c["answers"])
+            else:
+                p = rm_policy(c["cond"], wrap)
+                if path != "guard":
+                    p = rm_set(p, path.split(":")[1])
+                tag, ln = "relcond", lib.model_call("relcond.eval", bool(c.get("strict")), p, c["req"], None, rows, None)
+            where.append((tag, lines[tag].setdefault(ln, len(lines[tag])), ci, pi))
+    outs = {}
+    for tag, d in lines.items():
+        ls = list(d)
+        outs[tag] = [lib.dec(x) for x in lib.run_model(tag, ls, chunk=max(50, min(4000, len(ls) // 10 + 1)), procs=10)]
+    per = [[None] * len(rm_paths(c)) for c in cases]
+    for tag, k, ci, pi in where:
+        o = outs[tag][k]
+        if tag == "engine":
+            per[ci][pi] = {"value": o, "log": None, "unknown": 1 if o == ["UnknownRelQuery"] else 0}
+        elif "decision" in o:
+            per[ci][pi] = {"value": o["decision"], "log": o["log"], "unknown": o["unknown"]}
+        else:
+            per[ci][pi] = {"value": o["value"], "log": o["log"], "unknown": o["unknown"]}
+    return per
+
+
+RM_WHERE = {"cond": "policy.eval_condition called directly", "evaluate": "policy.evaluate called directly",
+            "guard": "Guard on the single policy (compiled path)", "guard:set": "Guard on a policy set holding the policy",
+            "guard:nested": "Guard on a nested policy set holding the policy"}
+
+
+def _rm_differs(i, m):
+    """(what differs, impl side, model side) or None"""
+    iv, mv = i["value"], m["value"]
+    if isinstance(mv, dict) and isinstance(iv, dict):
+        keys = [k for k in mv if k in iv]
+        if any(iv[k] != mv[k] for k in keys):
+            return "result", {k: iv[k] for k in keys}, mv
+    elif norm_impl(iv) != norm_model(mv):
+        return "result", iv, mv
+    if m["log"] is not None and i["calls"] != m["log"]:
+        return "lookups", i["calls"], m["log"]
+    return None
+
+
+def relmix_check(chk, cases):
+    import asyncio
+
+    impls = rm_run_impl(cases)
+    models = rm_run_model(cases)
+    found = []                 # (rank, clause, case, impl, model): differences of the result before differences of the lookups
+    confirmed = 0
+    for c, ii, mm in zip(cases, impls, models):
+        chk.count("fam:" + c.get("fam", "relmix"))
+        for (path, ck, wrap), i, m in zip(rm_paths(c), ii, mm):
+            chk.count("relmix-path:" + path)
+            if m["value"] == ["Ood"] or m["value"] == ["UnknownRelQuery"] or m["unknown"]:
+                chk.count("ood" if m["value"] == ["Ood"] else "relmix:query-outside-the-table")
+                chk.mark(("relmix-ood", path, repr(c["cond"])), False)
+                continue
+            mv = m["value"]
+            chk.mark(("relmix", path, ck, wrap, repr(c["cond"]), repr(c["req"]), repr(c["answers"]), c["strict"]),
+                     bool(m["log"]) or mv is True or (isinstance(mv, dict) and mv.get("reason") != "condition_mismatch"))
+            chk.count("relmix-result:" + (str(mv) if isinstance(mv, bool) else mv[0] if isinstance(mv, list)
+                                          else str(mv.get("reason"))))
+            diff = _rm_differs(i, m)
+            if diff and ck == "async":
+                # an awaited answer is given up on after a time-out: only a difference that shows again counts
+                # (after a hundred confirmed ones the remaining differences of a broken tree are only counted)
+                if confirmed >= 100:
+                    chk.count("relmix:async-difference-not-re-run")
+                    continue
+                for _ in range(2):
+                    i = asyncio.run(_rm_run_path(c, path, ck, wrap))
+                    diff = _rm_differs(i, m)
+                    if not diff:
+                        break
+                confirmed += 1 if diff else 0
+            if not diff:
+                continue
+            what, iside, mside = diff
+            one = dict(c, wraps=[wrap] if wrap is not None else c["wraps"][:1],
+                       sets=[path.split(":")[1]] if ":" in path else c["sets"][:1])
+            if what == "result":
+                found.append((0, "and/or/not over `rel` operands and operands that may be ill-typed, %s (%s relationship checker): "
+                              "implementation gives %s but composing the operands left to right with short-circuit "
+                              "(c04_and, c04_or, c04_not, c04_and_short_circuit, c04_or_short_circuit; a type mismatch that is "
+                              "reached makes the rule not apply, one that is not reached does not matter) gives %s"
+                              % (RM_WHERE[path], ck, json_brief(iside), json_brief(mside)), one, i, m))
+            else:
+                found.append((1, "and/or/not over `rel` operands, %s (%s relationship checker): the lookups put to the checker are "
+                              "%s but left-to-right evaluation with short-circuit asks %s (operands right of a deciding "
+                              "operand are not evaluated: c04_and_short_circuit / c04_or_short_circuit fix the final state)"
+                              % (RM_WHERE[path], ck, json_brief(iside), json_brief(mside)), one, i, m))
+    found.sort(key=lambda f: f[0])
+    for _rank, clause, one, i, m in found:
+        chk.violation(clause, one, impl=i, model=m)
+
+
+def json_brief(x):
+    import json
+    if isinstance(x, dict) and "reason" in x:
+        x = {k: x.get(k) for k in ("decision", "effect", "reason", "rule_id") if k in x}
+    return json.dumps(x, default=str)[:300]
